@@ -171,6 +171,22 @@ class CFG:
             return f, t
         if isinstance(e, ast.Constant) and e.value in (True, False) and isinstance(e.value, bool):
             return (set(cur), set()) if e.value else (set(), set(cur))
+        if isinstance(e, ast.Compare) and len(e.ops) > 1:
+            # a < b <= c  ==  a < b and b <= c  (the middle operands are evaluated once at run time, which
+            # makes no difference for the facts a branch outcome establishes)
+            parts = []
+            left = e.left
+            for op, right in zip(e.ops, e.comparators):
+                c = ast.Compare(left=left, ops=[op], comparators=[right])
+                ast.copy_location(c, e)
+                self.parent[id(c)] = e
+                parts.append(c)
+                left = right
+            t, fs = cur, set()
+            for v in parts:
+                t, f = self._cond(v, t, stmt)
+                fs |= f
+            return t, fs
         n = self._stmt_node("test", e, cur, stmt=stmt)
         t = self._new("T", e, stmt=stmt)
         f = self._new("F", e, stmt=stmt)
